@@ -113,10 +113,20 @@ def emission_guard(b, self_fields_ok=("emit", "event_emission")):
     for bid, org, tv, other in b.switch_edges():
         if org[0] == "param" and org[1] == 1 and 1 <= len(org[2]) <= 3 and set(tv) == {0}:
             edges.append({"switch": bid, "call": None, "true_edge": (bid, other), "false_edge": (bid, tv[0]), "field": org[2][-1]})
+    # Option form: `if let Some(ch) = self.<..>.sink (.as_mut())` - the decision was taken when the wrapper was built (C12-R2)
+    for bid, org, tv, other in b.switch_edges():
+        if org[0] != "discr":
+            continue
+        src = org[1]
+        if src[0] == "call" and b.term(src[1])["callee"].get("name") in ("as_mut", "as_ref", "as_deref_mut", "as_deref", "take"):
+            src = b.arg_origin(src[1], 0)
+        if src[0] == "param" and src[1] == 1 and src[2] and 1 in tv:
+            fe = tv.get(0, other)
+            edges.append({"switch": bid, "call": None, "true_edge": (bid, tv[1]), "false_edge": (bid, fe), "field": src[2][-1], "option": True})
     return edges
 
 
-def check_emitting(ctx, facts, b, variant, id_org, channel_root, delegate_pred, key, rule="C12-R1"):
+def check_emitting(ctx, facts, b, variant, id_org, channel_root, delegate_pred, key, rule="C12-R1", lenient=False):
     """the R1 obligations for one emitting body"""
     ws = writes(b)
     where = b.loc()
@@ -151,6 +161,8 @@ def check_emitting(ctx, facts, b, variant, id_org, channel_root, delegate_pred, 
     edges = emission_guard(b)
     removed = {e["true_edge"] for e in edges}
     g = bool(edges) and wbb not in b.reachable(0, removed=removed)
+    if not g and lenient:
+        g = "undetermined"      # a wrapper design this pack does not model (no bool flag): not decided rather than called a violation
     ctx.ob("C12-R3", key + " under emission switch", g, b.loc(wbb),
            "" if g else "event write reachable without passing the true-edge of the emission predicate")
     # before delegating, on every emitting path
@@ -256,11 +268,47 @@ def run_config(ctx, facts):
             if o and o[0] == "call":
                 tb = facts.targets(b.term(o[1])["callee"])
                 ok_emit = bool(tb) and all(x.ltype[0] == "bool" and x.self_ty == b.self_ty for x in tb)
+        opt_chan = [pth for pth, ty_, o in lf if "EventChannel" in ty_ and "option::Option<" in ty_]
+        alt_design = not bool_fields and bool(opt_chan)
+        if alt_design:
+            # the emission decision is encoded in the wrapper itself: an Option<&mut channel> that is Some exactly when emission was on.
+            # Decided if visible: every Some(..) that can reach that field is built under the true-edge of the emission predicate (or of a
+            # bool whose origin is that predicate); otherwise the instance is undetermined - a different but possibly correct design.
+            ok_emit = "undetermined"
+            eg = emission_guard(b)
+            for pth in opt_chan:
+                o = fo.get(pth)
+                comps = [o] if o else []
+                flat = []
+                while comps:
+                    x_ = comps.pop()
+                    if x_ and x_[0] == "phi":
+                        comps.extend(x_[2])
+                    elif x_:
+                        flat.append(x_)
+                somes = [x_ for x_ in flat if x_[0] == "agg" and b.blocks[x_[1]]["stmts"][x_[2]]["rv"].get("variant") == "Some"]
+                others = [x_ for x_ in flat if x_ not in somes and not (x_[0] == "agg" and b.blocks[x_[1]]["stmts"][x_[2]]["rv"].get("variant") == "None")]
+                if somes and not others:
+                    pred_edges = list(eg)
+                    # a local bool that holds the predicate's result
+                    for bid_, org_, tv_, other_ in b.switch_edges():
+                        if org_[0] == "call" and set(tv_) == {0}:
+                            tb_ = facts.targets(b.term(org_[1])["callee"])
+                            if tb_ and all(x.ltype[0] == "bool" and x.self_ty == b.self_ty for x in tb_):
+                                pred_edges.append({"true_edge": (bid_, other_)})
+                    removed_ = {e["true_edge"] for e in pred_edges}
+                    if pred_edges and all(x_[1] not in b.reachable(0, removed=removed_) for x_ in somes):
+                        ok_emit = True
         ctx.ob("C12-R2", key + " wrapper.emit = emit_event()", ok_emit, b.loc(built[0], built[1].get("line")),
                "" if ok_emit else "the wrapper's emission flag does not come from the storage's emission predicate (%r)" % {f: fo.get(f) for f in bool_fields})
         ok_id = any(fo.get(f) == ("param", 2, ()) for f in id_fields)
+        if not ok_id and alt_design and all(fo.get(f) is None for f in id_fields):
+            ok_id = "undetermined"
         ctx.ob("C12-R2", key + " wrapper.id = id", ok_id, b.loc(line=built[1].get("line")), "" if ok_id else "wrapper id origin %r" % {f: fo.get(f) for f in id_fields})
-        ok_ch = any(fo.get(f, ("x",))[:3] == ("param", 1, ("channel",)) for f in chan_fields)
+        ok_ch = any((fo.get(f) or ("x",))[:3] == ("param", 1, ("channel",)) or
+                    any(r[:3] == ("param", 1, ("channel",)) for r in (b.roots(fo[f]) if fo.get(f) else [])) for f in chan_fields)
+        if not ok_ch and alt_design and all(fo.get(f) is None for f in chan_fields):
+            ok_ch = "undetermined"
         ctx.ob("C12-R2", key + " wrapper.channel = storage channel", ok_ch, b.loc(line=built[1].get("line")), "" if ok_ch else "wrapper channel origin %r" % {f: fo.get(f) for f in chan_fields})
         # DerefMut / Deref of the wrapper
         dm = [i for i in facts.impls_of("std::ops::DerefMut") if base_ty(i["self_ty"]) == acc]
@@ -275,7 +323,7 @@ def run_config(ctx, facts):
 
             def delegate2(bb, t):
                 return t["callee"].get("name") in ("access_mut", "deref_mut") and mb.arg_origin(bb, 0)[:2] == ("param", 1)
-            check_emitting(ctx, facts, mb, "Modified", ("param", 1, tuple(idf)), tuple(chf), delegate2, "%s::deref_mut" % acc, rule="C12-R2")
+            check_emitting(ctx, facts, mb, "Modified", ("param", 1, tuple(idf)), tuple(chf), delegate2, "%s::deref_mut" % acc, rule="C12-R2", lenient=alt_design)
         for i in dr:
             rb = facts.body(i["items"]["deref"])
             if rb:
